@@ -32,7 +32,9 @@ const mutexLocked = 1
 
 //go:norace
 func (m *Mutex) held() bool {
-	return ra.LoadInt32((*int32)(unsafe.Pointer(&m.real)))&mutexLocked != 0
+	// plain read, invisible to the race detector: this runs on whichever goroutine evaluates the
+	// scheduler and must not create a happens-before edge from the last unlocker to it
+	return *(*int32)(unsafe.Pointer(&m.real))&mutexLocked != 0
 }
 
 func (m *Mutex) Lock() {
@@ -67,25 +69,36 @@ type RWMutex struct {
 func (m *RWMutex) Lock() {
 	vsched.Point(vsched.KWLock, unsafe.Pointer(m))
 	m.real.Lock()
-	ra.StoreInt32(&m.writer, 1)
+	m.shadow(0, 1)
 }
 
 func (m *RWMutex) Unlock() {
 	vsched.Point(vsched.KUnlock, unsafe.Pointer(m))
-	ra.StoreInt32(&m.writer, 0)
+	m.shadow(0, -1)
 	m.real.Unlock()
 }
 
 func (m *RWMutex) RLock() {
 	vsched.Point(vsched.KRLock, unsafe.Pointer(m))
 	m.real.RLock()
-	ra.AddInt32(&m.readers, 1)
+	m.shadow(1, 0)
 }
 
 func (m *RWMutex) RUnlock() {
 	vsched.Point(vsched.KRUnlock, unsafe.Pointer(m))
-	ra.AddInt32(&m.readers, -1)
+	m.shadow(-1, 0)
 	m.real.RUnlock()
+}
+
+// shadow updates the occupancy shadow with plain operations invisible to the race detector
+// (atomics here would add reader-to-reader happens-before edges the real RWMutex does not
+// have). The shadow is only consulted under the controlled scheduler, where all calls are
+// serialised; a free-running process never consults it.
+//
+//go:norace
+func (m *RWMutex) shadow(dr, dw int32) {
+	m.readers += dr
+	m.writer += dw
 }
 
 func (m *RWMutex) RLocker() Locker { return (*rlocker)(m) }
@@ -101,10 +114,10 @@ func lockBlocked(kind uint8, addr unsafe.Pointer) bool {
 	case vsched.KLock:
 		return (*Mutex)(addr).held()
 	case vsched.KRLock:
-		return ra.LoadInt32(&(*RWMutex)(addr).writer) != 0
+		return (*RWMutex)(addr).writer != 0
 	case vsched.KWLock:
 		m := (*RWMutex)(addr)
-		return ra.LoadInt32(&m.writer) != 0 || ra.LoadInt32(&m.readers) != 0
+		return m.writer != 0 || m.readers != 0
 	}
 	return false
 }
